@@ -79,7 +79,7 @@ PROPS = {
         assumptions=["Crypto laws: a signature made with a private key verifies under its public key; ECDSA/RSA key type is what the key's Go type says"],
     ),
     "C02": dict(
-        modules=['Gopki.Props.C02', 'Gopki.Props.Tags'], theorems=['C02.C02_reencode_identity', 'C02.C02_model_cert_decodable', 'C02.C02_model_tbs_canonical', 'C02.C02_model_cert_canonical', 'C02.C02_model_cert_roundtrip', 'C02.C02_issued_certificate_canonical_and_readable', 'CertPipeline.signBody_tbsOk', 'CertRound.decTbs_tbsTlv', 'CertWf.tbsOk_of_tbsOkB', 'C02.C02_sigAlg_ok', 'CertWf.good_tbs', 'CertWf.oidContent_canonical', 'CertWf.intBytes_canonical', 'Der.wf_of_tagsOk', 'C02.C02_algid_params', 'C02.C02_inner_eq_outer', 'C02.C02_version_v3', 'C02.C02_serial_source', 'C02.C02_serial_len', 'C02.C02_time_form', 'C02.C02_time_roundtrip', 'Der.dec_sound', 'Der.dec_enc', 'Tags.tags_certificate'], ops=['pki', 'hist'],
+        modules=['Gopki.Props.C02', 'Gopki.Props.Tags'], theorems=['C02.C02_reencode_identity', 'C02.C02_model_cert_decodable', 'C02.C02_model_tbs_canonical', 'C02.C02_model_cert_canonical', 'C02.C02_model_cert_roundtrip', 'C02.C02_issued_certificate_canonical_and_readable', 'CertPipeline.signBody_tbsOk', 'CertRound.decTbs_tbsTlv', 'CertWf.tbsOk_of_tbsOkB', 'C02.C02_sigAlg_ok', 'CertWf.good_tbs', 'CertWf.oidContent_canonical', 'CertWf.intBytes_canonical', 'Der.wf_of_tagsOk', 'C02.C02_algid_params', 'C02.C02_inner_eq_outer', 'C02.C02_version_v3', 'C02.C02_serial_source', 'C02.C02_serial_len', 'C02.C02_time_form', 'C02.C02_time_roundtrip', 'Der.dec_sound', 'Der.dec_enc', 'Tags.tags_certificate'], ops=['pki', 'hist', 'serial'],
         rule="pki: forests of 1-5 entities (random parent vector, nested directories, yaml/yml/json), every key algorithm except RSA>=2048 in quick, configured/omitted signature algorithms, "
              "subjects from the documented grammar incl. UTF-8 and custom OIDs, 0-6 extensions of all 11 kinds, serials, unique ids, validity forms, manipulations in 1 of 5 forests, 6 zone offsets, 5 flag sets; "
              "every generated certificate is compared byte for byte with the model and read by the strict decoder; non-trivial = at least one certificate generated",
